@@ -258,6 +258,16 @@ func (h *hist) apply(op hOp) error {
 		if op.Kind == 1 && len(h.vest) > 0 {
 			to = h.vest[op.B%len(h.vest)]
 		}
+		if op.Kind == 2 {
+			// redeem the WHOLE supply of the most recently created liquid denom (its only holder is
+			// the account it was liquidated to): the denom record is deleted, the counter is not
+			d = h.liquid[len(h.liquid)-1]
+			sup := c.App.BankKeeper.GetSupply(ctx, d).Amount
+			if !sup.IsPositive() {
+				return fmt.Errorf("nothing to redeem")
+			}
+			return c.RunMsg(liquidvestingtypes.NewMsgRedeem(from, to, sdk.NewCoin(d, sup)))
+		}
 		return c.RunMsg(liquidvestingtypes.NewMsgRedeem(from, to, coinOf(d, amtOf(op.Amt, islm(100)))))
 	case "daofund":
 		denom := utils.BaseDenom
@@ -304,6 +314,29 @@ func (h *hist) apply(op hOp) error {
 			h.coins = append(h.coins, denom)
 		}
 		return err
+	case "manycoins":
+		// more registered token pairs than one page of the SDK's paginated iteration (100)
+		n := int(op.K)
+		return c.Direct(func(ctx sdk.Context) error {
+			for i := 0; i < n; i++ {
+				denom := fmt.Sprintf("ubulk%d", len(h.coins)+i)
+				coins := sdk.NewCoins(coinOf(denom, big.NewInt(1000)))
+				if err := c.App.BankKeeper.MintCoins(ctx, coinomicstypes.ModuleName, coins); err != nil {
+					return err
+				}
+				if err := c.App.BankKeeper.SendCoinsFromModuleToAccount(ctx, coinomicstypes.ModuleName, chainAcct(a).Acc, coins); err != nil {
+					return err
+				}
+				md := banktypes.Metadata{
+					Description: "bulk coin", Base: denom, Display: denom[1:], Name: denom, Symbol: strings.ToUpper(denom[1:]),
+					DenomUnits: []*banktypes.DenomUnit{{Denom: denom, Exponent: 0}, {Denom: denom[1:], Exponent: 6}},
+				}
+				if _, err := c.App.Erc20Keeper.RegisterCoin(ctx, md); err != nil {
+					return err
+				}
+			}
+			return nil
+		})
 	case "convert":
 		if len(h.coins) == 0 {
 			return fmt.Errorf("no registered coin")
@@ -887,6 +920,7 @@ func genHistory(r *Rng, nBlocks, opsPerBlock int) hInput {
 	in := hInput{}
 	big1 := func(lo, hi int64) string { return islm(lo + int64(r.Intn(int(hi-lo+1)))).String() }
 	nVest, nLiquid, nContracts, nCoins := 0, 0, 0, 0
+	bulkDone := false
 	funded, liquidHolder, coinOwner := []int{}, []int{}, []int{}
 	for b := 0; b < nBlocks; b++ {
 		blk := hBlock{Dt: 1 + int64(r.Intn(20))}
@@ -941,6 +975,9 @@ func genHistory(r *Rng, nBlocks, opsPerBlock int) hInput {
 				} else if nLiquid > 0 && r.Chance(35) {
 					d := r.Intn(nLiquid)
 					op = hOp{Op: "redeem", A: liquidHolder[d], B: bb, K: uint64(d), Amt: big1(1, 300), Kind: r.Intn(2)}
+					if r.Chance(35) {
+						op = hOp{Op: "redeem", A: liquidHolder[nLiquid-1], B: bb, K: uint64(nLiquid - 1), Kind: 2}
+					}
 				} else {
 					op = hOp{Op: "liquidate", A: a, B: r.Intn(nVest), Amt: big1(1000, 1500), Kind: r.Intn(3) / 2}
 					if op.Kind == 0 { // the steering shadow assumes success; precision is irrelevant
@@ -992,6 +1029,10 @@ func genHistory(r *Rng, nBlocks, opsPerBlock int) hInput {
 				}
 			case k < 89:
 				op = hOp{Op: "toggle", K: uint64(r.Intn(nCoins + nLiquid + 1))}
+				if !bulkDone && r.Chance(10) {
+					bulkDone = true
+					op = hOp{Op: "manycoins", A: a, K: uint64(96 + r.Intn(12))} // around the page size of 100
+				}
 			case k < 92:
 				op = hOp{Op: "evmparams", K: uint64(r.Intn(5))}
 			case k < 95:
